@@ -1,0 +1,109 @@
+//go:build verif
+
+package protocol
+
+import (
+	"io"
+	"net"
+	"time"
+
+	"github.com/enfein/mieru/v3/pkg/cipher"
+	"github.com/enfein/mieru/v3/pkg/stderror"
+)
+
+// Exports for the external verification harness (property C04). Add-only; compiled only with -tags verif.
+// They run the unexported receivers (StreamUnderlay.readOneSegment / PacketUnderlay.readOneSegment with
+// readSessionSegment, readDataAckSegment, parseSessionSegment, parseDataAckSegment) on bytes chosen by the harness.
+
+// verifC04Stream is a net.Conn that returns the given bytes and then io.EOF.
+type verifC04Stream struct {
+	data []byte
+	addr net.Addr
+}
+
+func (c *verifC04Stream) Read(b []byte) (int, error) {
+	if len(c.data) == 0 {
+		return 0, io.EOF
+	}
+	n := copy(b, c.data)
+	c.data = c.data[n:]
+	return n, nil
+}
+func (c *verifC04Stream) Write(b []byte) (int, error)        { return len(b), nil }
+func (c *verifC04Stream) Close() error                       { return nil }
+func (c *verifC04Stream) LocalAddr() net.Addr                { return c.addr }
+func (c *verifC04Stream) RemoteAddr() net.Addr               { return c.addr }
+func (c *verifC04Stream) SetDeadline(t time.Time) error      { return nil }
+func (c *verifC04Stream) SetReadDeadline(t time.Time) error  { return nil }
+func (c *verifC04Stream) SetWriteDeadline(t time.Time) error { return nil }
+
+// VerifC04Seg is what a receiver hands on: the authenticated metadata as marshalled and the plaintext payload.
+type VerifC04Seg struct {
+	Meta    []byte
+	Payload []byte
+}
+
+// VerifC04StreamReceive runs a client side StreamUnderlay.readOneSegment in a loop over stream until the first error
+// (the end of the bytes is a NETWORK_ERROR). block must be stateful. It returns the segments handed on and the
+// type of the terminating error (stderror.ErrorType as int).
+func VerifC04StreamReceive(block cipher.BlockCipher, stream []byte) (segs []VerifC04Seg, errType int) {
+	addr := &net.TCPAddr{IP: net.IPv4(192, 0, 2, 77), Port: 4}
+	t := &StreamUnderlay{
+		baseUnderlay: *newBaseUnderlay(true, 1500, nil),
+		conn:         &verifC04Stream{data: stream, addr: addr},
+		block:        block,
+	}
+	for {
+		seg, err := t.readOneSegment()
+		if err != nil {
+			return segs, int(stderror.GetErrorType(err))
+		}
+		if seg == nil {
+			return segs, int(stderror.NETWORK_ERROR)
+		}
+		segs = append(segs, VerifC04Seg{Meta: seg.metadata.Marshal(), Payload: append([]byte(nil), seg.payload...)})
+	}
+}
+
+// VerifC04ErrorTypes returns NETWORK_ERROR, CRYPTO_ERROR, PROTOCOL_ERROR, REPLAY_ERROR as ints.
+func VerifC04ErrorTypes() (network, crypto, protocol, replay int) {
+	return int(stderror.NETWORK_ERROR), int(stderror.CRYPTO_ERROR), int(stderror.PROTOCOL_ERROR), int(stderror.REPLAY_ERROR)
+}
+
+// verifC04Packet is a net.PacketConn that returns one datagram and then io.EOF.
+type verifC04Packet struct {
+	data []byte
+	from net.Addr
+	used bool
+}
+
+func (c *verifC04Packet) ReadFrom(b []byte) (int, net.Addr, error) {
+	if c.used {
+		return 0, nil, io.EOF
+	}
+	c.used = true
+	return copy(b, c.data), c.from, nil
+}
+func (c *verifC04Packet) WriteTo(b []byte, addr net.Addr) (int, error) { return len(b), nil }
+func (c *verifC04Packet) Close() error                                 { return nil }
+func (c *verifC04Packet) LocalAddr() net.Addr                          { return c.from }
+func (c *verifC04Packet) SetDeadline(t time.Time) error                { return nil }
+func (c *verifC04Packet) SetReadDeadline(t time.Time) error            { return nil }
+func (c *verifC04Packet) SetWriteDeadline(t time.Time) error           { return nil }
+
+// VerifC04ParseDatagram runs a client side PacketUnderlay.readOneSegment on one datagram (block stateless).
+// ok = false: the datagram was discarded.
+func VerifC04ParseDatagram(block cipher.BlockCipher, datagram []byte) (seg VerifC04Seg, ok bool) {
+	addr := &net.UDPAddr{IP: net.IPv4(192, 0, 2, 77), Port: 4}
+	u := &PacketUnderlay{
+		baseUnderlay: *newBaseUnderlay(true, 1500, nil),
+		conn:         &verifC04Packet{data: datagram, from: addr},
+		serverAddr:   addr,
+		block:        block,
+	}
+	s, _, err := u.readOneSegment()
+	if err != nil || s == nil {
+		return VerifC04Seg{}, false
+	}
+	return VerifC04Seg{Meta: s.metadata.Marshal(), Payload: append([]byte(nil), s.payload...)}, true
+}
